@@ -338,9 +338,6 @@ theorem var_item (name idx : List Char) (hn : nameOK name = true) (hi : idx.all 
 theorem digitsOK_iff (ds : List Nat) (h : digitsOK ds = true) : ds.isEmpty = false ∧ ds.all (· < 10) = true := by
   simpa [digitsOK] using h
 
-/-- the text of a signed integer exponent -/
-def expoText (neg : Bool) (ds : List Nat) : List Char := (if neg then ['-'] else []) ++ ds.map digitChar
-
 theorem expoText_plain (neg : Bool) (ds : List Nat) (h : digitsOK ds = true) :
     (expoText neg ds).all (fun x => plain x && okTop x) = true ∧
     (∃ c cs, expoText neg ds = c :: cs ∧ (c == ' ') = false ∧ (isDigit c || c == '-') = true) ∧
@@ -365,12 +362,75 @@ theorem expoText_plain (neg : Bool) (ds : List Nat) (h : digitsOK ds = true) :
       · simp only [expoText, if_true, List.singleton_append, List.all_cons, hdall, Bool.and_true]; decide
       · simp only [expoText, if_true, List.singleton_append, hlast, List.cons_append, List.nil_append]
 
+theorem digits_chars (ds : List Nat) (hall : ds.all (· < 10) = true) :
+    ∀ x ∈ ds.map digitChar, (plain x && okTop x) = true ∧ isDigit x = true := by
+  intro x hx
+  rw [List.mem_map] at hx
+  obtain ⟨e, he, rfl⟩ := hx
+  have := digitChar_facts e (by simpa using (List.all_eq_true.mp hall) e he)
+  simp [this.1, this.2.1, this.2.2.1]
+
+theorem dec_item (ip : List Nat) (fp : Option (List Nat)) (ex : Option (Bool × List Nat)) (h : decOK ip fp ex = true) :
+    ItemFacts (decText ip fp ex) := by
+  simp only [decOK, Bool.and_eq_true] at h
+  obtain ⟨⟨hip, hfp⟩, hex⟩ := h
+  have hall : (decText ip fp ex).all (fun x => plain x && okTop x) = true := by
+    rw [List.all_eq_true]
+    intro x hx
+    simp only [decText, numText, expSuffix, List.mem_append] at hx
+    rcases hx with (hx | hx) | hx
+    · exact (digits_chars ip hip x hx).1
+    · cases fp with
+      | none => simp at hx
+      | some f =>
+        simp only [Bool.and_eq_true] at hfp
+        simp only [List.mem_cons] at hx
+        rcases hx with rfl | hx
+        · decide
+        · exact (digits_chars f hfp.1 x hx).1
+    · cases ex with
+      | none => simp at hx
+      | some p =>
+        obtain ⟨neg, ds⟩ := p
+        simp only [List.mem_cons] at hx
+        rcases hx with rfl | hx
+        · decide
+        · have := (expoText_plain neg ds hex).1
+          exact (List.all_eq_true.mp this) x hx
+  -- the first character
+  have hhead : ∃ c cs, decText ip fp ex = c :: cs ∧ startOK c = true := by
+    cases ip with
+    | cons d ds =>
+      simp only [List.all_cons, Bool.and_eq_true, decide_eq_true_eq] at hip
+      exact ⟨digitChar d, decText ds fp ex, rfl, (digitChar_facts d hip.1).2.2.2.1⟩
+    | nil =>
+      cases fp with
+      | none => simp at hfp
+      | some f => exact ⟨'.', (decText [] (some f) ex).tail, rfl, by decide⟩
+  obtain ⟨c, cs, hc, hs⟩ := hhead
+  exact item_facts_plain _ c cs hc hs hall
+
+theorem call_item (name idx E : List Char) (hn : nameOK name = true) (hi : idx.all idxChar = true) (hE : Bal E) :
+    ItemFacts ((name ++ (if idx.isEmpty then [] else '_' :: idx)) ++ ('(' :: E ++ [')'])) := by
+  have hv := var_item name idx hn hi
+  have hb := item_facts_bracket '(' ')' E (by decide) (by decide) hE
+  obtain ⟨c, cs, hh, hc⟩ := hv.ends.head
+  obtain ⟨init, cl, hl, hcl⟩ := hb.ends.last
+  refine ⟨hv.bal.append hb.bal, ⟨⟨c, cs ++ ('(' :: E ++ [')']), by rw [hh]; simp, hc⟩, ⟨(name ++ (if idx.isEmpty then [] else '_' :: idx)) ++ init, cl, by rw [hl]; simp, hcl⟩⟩, ?_⟩
+  rw [topHeads_append, hv.bal.2]
+  simp only [Bool.and_eq_true]
+  exact ⟨hv.top, by simpa using hb.top⟩
+
 theorem print_facts (t : Src) : ∀ k, t.ok k = true → Facts k t := by
   induction t with
   | num ds =>
     intro k h; cases k <;> simp only [Src.ok, Bool.false_eq_true] at h
     · exact digits_item ds (digitsOK_iff ds h).1 (digitsOK_iff ds h).2
     · exact (digits_item ds (digitsOK_iff ds h).1 (digitsOK_iff ds h).2).pow
+  | dec ip fp ex =>
+    intro k h; cases k <;> simp only [Src.ok, Bool.false_eq_true] at h
+    · exact dec_item ip fp ex h
+    · exact (dec_item ip fp ex h).pow
   | var name idx =>
     intro k h; cases k <;> simp only [Src.ok, Bool.false_eq_true, Bool.and_eq_true] at h
     · exact var_item name idx h.1 h.2
@@ -387,6 +447,10 @@ theorem print_facts (t : Src) : ∀ k, t.ok k = true → Facts k t := by
     intro k h; cases k <;> simp only [Src.ok, Bool.false_eq_true] at h
     · exact item_facts_bracket '{' '}' _ (by decide) (by decide) (ih .expr h)
     · exact (item_facts_bracket '{' '}' _ (by decide) (by decide) (ih .expr h)).pow
+  | call name idx arg ih =>
+    intro k h; cases k <;> simp only [Src.ok, Bool.false_eq_true, Bool.and_eq_true] at h
+    · exact call_item name idx _ h.1.1 h.1.2 (ih .expr h.2)
+    · exact (call_item name idx _ h.1.1 h.1.2 (ih .expr h.2)).pow
   | powInt b neg ds ih =>
     intro k h; cases k <;> simp only [Src.ok, Bool.false_eq_true, Bool.and_eq_true] at h
     have hb : ItemFacts b.print := ih .item h.1
